@@ -25,7 +25,7 @@ FUNCTIONS = ['IndexOperator.__init__/mv/reduce/indexed_axes/unique_indices', 'In
              'TransposeOperator.mv (linear_transpose of gather)', 'PackOperator.mv', 'PackUnpackRule', 'StokesPyTree.__getitem__']
 BOUNDS = {'quick': 'all int vectors of length<=2 over [-n,n), n<=3, and a seeded third of length 3; leaf shapes (n,),(n,2),(2,n); '
                    'all masks of length<=3; 2x2 index matrices (seeded 40); 24 combined expressions on (2,3,2); pytrees; Stokes packing',
-          'thorough': 'all int vectors of length<=3 over [-n,n), n<=3; all masks of length<=4; all 2x2 index matrices over [-2,2); combined expressions'}
+          'thorough': 'all int vectors of length<=3 over [-n,n), n<=4; all masks of length<=4; all 2x2 index matrices over [-2,2); combined expressions'}
 STUBS = []
 ASSUMPTIONS = ['indices in bounds (property precondition)', 'real arithmetic']
 RULE = 'case = (leaf shape(s), index expression); non-trivial = at least one array/mask index or a rewritten product; distinct keys'
@@ -41,7 +41,7 @@ def _vecs(n, maxlen):
 def cases(tier, seed):
     rnd = random.Random(f'c12-{seed}')
     out = []
-    for n in (1, 2, 3):
+    for n in ((1, 2, 3) if tier == 'quick' else (1, 2, 3, 4)):
         vs = list(_vecs(n, 3))
         if tier == 'quick':
             short = [v for v in vs if len(v) <= 2]
